@@ -242,6 +242,44 @@ def run(ctx):
                   "sort arguments are " + str(a))
     ls = loop_over(pw, "files")
     ctx.check(len(ls) == 1 and forward_iteration(pw, ls[0]), "startup-load-in-order", "loop-shape", pw.loc(), "files are added in list order", "files are not added in list order")
+    # the inotify read buffer holds at least one maximal event (header + NAME_MAX + 1): otherwise read(2) fails with EINVAL for a
+    # long file name, processDropInWatcher returns 1 and the OCHECK in run() aborts the daemon
+    pdw = ctx.fn1("Oomd::FsDropInService::processDropInWatcher")
+    ELEM = {"char": 1, "unsigned char": 1, "signed char": 1, "uint8_t": 1, "std::byte": 1, "struct inotify_event": 16, "inotify_event": 16}
+    NEED = 16 + 255 + 1
+
+    def const_int(name):
+        if re.match(r"^\d+$", name):
+            return int(name)
+        for u_, g_ in P.fns.items():
+            if g_.kind == "globalinit" and g_.pq.split("::")[-1] == name and g_.nodes:
+                t_ = g_.text(0)
+                if re.match(r"^\d+$", t_):
+                    return int(t_)
+        return None
+    rd = [i for i in pdw.calls("read") if len(pdw.nodes[i].get("args", [])) == 3]
+    ctx.counters["inotify_read_sites"] = len(rd)
+    ctx.floor("inotify_read_sites", 1, "read(2) of the inotify descriptor")
+    for i in rd:
+        a = pdw.nodes[i]["args"]
+        refs_ = [x for x in pdw.walk(a[1]) if pdw.nodes[x]["k"] == "ref" and pdw.nodes[x].get("dk") == "local"]
+        root = pdw.nodes[refs_[0]] if refs_ else {"k": "?"}
+        size = None
+        if root["k"] == "ref" and root.get("decl"):
+            _, v = pdw.vardecl(root["decl"])
+            m = re.match(r"^(?:const )?std::array<(.+), (\w+)>$", (v or {}).get("type", ""))
+            if m and m.group(1) in ELEM and const_int(m.group(2)) is not None:
+                size = ELEM[m.group(1)] * const_int(m.group(2))
+            m2 = re.match(r"^(char|unsigned char|uint8_t)\[(\w+)\]$", (v or {}).get("type", ""))
+            if m2 and const_int(m2.group(2)) is not None:
+                size = const_int(m2.group(2))
+        if size is None:
+            ctx.broken("inotify-buffer-holds-one-event", "anchor", pdw.loc(i), "cannot determine the byte size of the buffer handed to read(): " + pdw.text(a[1]))
+        else:
+            ctx.check(size >= NEED, "inotify-buffer-holds-one-event", "constant evaluation (buffer size)", pdw.loc(i),
+                      "the inotify read buffer is %d bytes >= sizeof(inotify_event) + NAME_MAX + 1 = %d" % (size, NEED),
+                      "the inotify read buffer is only %d bytes (< %d = header + NAME_MAX + 1): read(2) returns EINVAL for an event with a long file "
+                      "name, processDropInWatcher returns 1 and run() aborts the daemon" % (size, NEED))
     # processEventLoop holds the lock while dispatching
     pel = ctx.fn1("Oomd::FsDropInService::processEventLoop")
     for i in pel.calls("processDropInWatcher"):
